@@ -133,6 +133,7 @@ pub fn main(reg: Registry) {
         cfg.hist_count = 2;
         cfg.hist_len = 6;
         cfg.long_hist_len = 12;
+        cfg.tiny = true;
     }
     let (slice_k, slice_n): (usize, usize) = match arg(&args, "--slice") {
         Some(s) => {
